@@ -3,10 +3,15 @@ import KrakenModel.Model.HttpSend
 /- Driver for C34: replays httputil.Send calls against scripted servers on the HttpSend model and
    monitors the property on what the server saw and what Send returned.
 
-   cfg  method=<M> path=<str> hdr=<K:v,…|-> kind=none|rew|plain impl=<…> body=<bytes>
-        accepted=<codes> extra=<codes|-> bo=none|default|<n>
-   script <net|s<code>,…>               what the server does with the 1st, 2nd, … request (`-` = none)
-   op send => <result> <a:method|path|hdrs|body|readerr>…      one `a:` token per request the server saw
+   cfg  method=<M> path=<str> hdr=<K:v,…|-> kind=none|rew|plain impl=<…> body=<body token>
+        accepted=<codes> extra=<codes|-> bo=none|default|<n> tls=0|1 fb=0|1 ka=0|1
+   script <net|n<k>|refuse|s<code>,…>   what the server does with the 1st, 2nd, … connection (`-` = none):
+                                        read the request then close | read k body bytes then close |
+                                        close before reading anything | answer with a status
+   op send => <result> <a:S|P|method|path|hdrs|body|flag|framing>…   one `a:` token per request the server saw
+        body token: x<hex> (up to 64 bytes) or b<len>.<hash> ; p<k> when the server stopped after k bytes (flag p)
+        flag: 0 body read completely, 1 body read error, p server stopped reading by script
+        framing: cl<n> | chunked
 -/
 open Driver KrakenModel.HttpSend
 
@@ -14,12 +19,16 @@ namespace C34
 
 structure St where
   cfg : Cfg
+  bodyTok : String
+  bodyLen : Nat
+  ka : Bool
   script : List Outcome := []
 
 def outcome? (t : String) : Option Outcome :=
-  if t = "net" then some .net else
+  if t = "net" then some .net else if t = "refuse" then some .refuse else
   match t.toList with
   | 's' :: ds => (String.ofList ds).toNat?.map .status
+  | 'n' :: ds => (String.ofList ds).toNat?.map .netAfter
   | _ => none
 
 def codes? (t : String) : Option (List Nat) := (list? t).mapM nat?
@@ -29,6 +38,13 @@ def hdr? (t : String) : Option (String × String) :=
   | [k, v] => some (k, v)
   | _ => none
 
+/-- length carried by a body token -/
+def bodyLen? (t : String) : Option Nat :=
+  match t.toList with
+  | 'x' :: _ => (bytes? t).map List.length
+  | 'b' :: rest => ((String.ofList rest).splitOn ".").head?.bind String.toNat?
+  | _ => none
+
 def init (toks : List String) : Option St := do
   let method ← kv? toks "method"
   let path ← kv? toks "path"
@@ -36,14 +52,21 @@ def init (toks : List String) : Option St := do
   let kindT ← kv? toks "kind"
   let kind ← if kindT = "none" then some BodyKind.none else if kindT = "rew" then some .rewindable
     else if kindT = "plain" then some .plain else none
-  let body ← (kv? toks "body").bind bytes?
+  let bodyTok ← kv? toks "body"
+  let bodyLen ← bodyLen? bodyTok
   let accepted ← (kv? toks "accepted").bind codes?
   let extra ← (kv? toks "extra").bind codes?
   let boT ← kv? toks "bo"
   let bo ← if boT = "none" then some 0 else if boT = "default" then some 2 else nat? boT
-  if kind = .none ∧ body ≠ [] then none
+  let tls ← (kv? toks "tls").bind bool?
+  let fb ← (kv? toks "fb").bind bool?
+  let ka ← (kv? toks "ka").bind bool?
+  if kind = .none ∧ bodyLen ≠ 0 then none
   if boT = "none" ∧ extra ≠ [] then none
-  pure { cfg := { req := { method, url := path, headers := hdrs, body }, kind, accepted, extra, bo } }
+  -- the model never looks inside the body: the token's characters stand for its bytes
+  let body := if bodyLen = 0 then [] else bodyTok.toList.map Char.toNat
+  pure { cfg := { req := { method, url := path, headers := hdrs, body, tls }, kind, accepted, extra, bo, fallback := fb },
+         bodyTok, bodyLen, ka }
 
 def resultTok : Result → String
   | .ok c => s!"ok:{c}"
@@ -52,7 +75,41 @@ def resultTok : Result → String
 
 def hdrTok (hs : List (String × String)) : String := listTok (hs.map fun (k, v) => s!"{k}:{v}")
 
-def reqTok (r : Req) : String := s!"a:{r.method}|{r.url}|{hdrTok r.headers}|{bytesTok r.body}|0"
+def framing (s : St) : String :=
+  match s.cfg.kind with
+  | .none => "cl0"
+  | .rewindable => s!"cl{s.bodyLen}"
+  | .plain =>
+    -- net/http probes a body of unknown length of the methods that usually have none: an empty
+    -- one is sent with Content-Length 0 instead of chunked
+    if s.bodyLen = 0 ∧ (s.cfg.req.method = "GET" ∨ s.cfg.req.method = "DELETE") then "cl0" else "chunked"
+
+/-- what the server records for a request it was sent, given what the script makes it do -/
+def seenTok (s : St) (r : Req) (o : Outcome) : Option String :=
+  let scheme := if r.tls then "S" else "P"
+  let full := if r.body = [] then "x" else s.bodyTok
+  let head := s!"a:{scheme}|{r.method}|{r.url}|{hdrTok r.headers}|"
+  match o with
+  | .refuse => none
+  | .netAfter k => if k < s.bodyLen ∧ r.body ≠ [] then some (head ++ s!"p{k}|p|{framing s}") else some (head ++ s!"{full}|0|{framing s}")
+  | _ => some (head ++ s!"{full}|0|{framing s}")
+
+/-- walk the wire history along the script -/
+def seenAll (s : St) : List Wire → List Outcome → List String
+  | [], _ => []
+  | .localErr :: ws, sc => seenAll s ws sc
+  | .sent r :: ws, sc =>
+    match seenTok s r (sc.headD .net) with
+    | some t => t :: seenAll s ws sc.tail
+    | none => seenAll s ws sc.tail
+
+def modelObs (s : St) (plainReplays : Bool) : List String :=
+  let cfg := { s.cfg with plainReplays }
+  let (wires, r) := send cfg s.script
+  resultTok r :: seenAll s wires s.script
+
+/-- fields of an attempt token -/
+def fields (a : String) : List String := a.splitOn "|"
 
 def step (s : St) (kind : String) (args impl : List String) : Option (St × StepOut) :=
   match kind, args with
@@ -61,21 +118,40 @@ def step (s : St) (kind : String) (args impl : List String) : Option (St × Step
     let n := min sc.length 4
     pure ({ s with script := sc }, { branch := s!"script.len{n}" })
   | "op", ["send"] =>
-    let (wires, r) := send s.cfg s.script
-    let sent := wires.filterMap fun w => match w with | .sent q => some q | .localErr => none
-    let obs := resultTok r :: sent.map reqTok
+    -- a reader without GetBody may or may not be made replayable by the implementation: the
+    -- property allows both, the model follows what the implementation did
+    let obs0 := modelObs s false
+    let obs1 := if s.cfg.kind = .plain then modelObs s true else obs0
+    let replays := obs0 ≠ impl ∧ obs1 = impl
+    let obs := if replays then obs1 else obs0
     -- the property's predicates on what the server saw and what Send returned
-    let want := reqTok (original s.cfg)
     let seen := impl.drop 1
     let k := seen.length
-    let outs := (List.range k).map fun i => s.script.getD i .net
     let res := impl.headD ""
-    let pf1 := (seen.zipIdx.filter fun (a, _) => a ≠ want).map fun (a, i) =>
-      s!"side=impl key=attempt-differs-from-original attempt {i + 1} carried {a.take 120}, the original request is {want.take 120}"
-    let pf2 := if res.startsWith "ok:" ∧ seen.getLast? ≠ some want then
-      ["side=impl key=success-with-incomplete-request Send reported success for an attempt that did not carry the original request"] else []
-    let pf3 := if k > s.cfg.bo + 1 then [s!"side=impl key=retry-after-backoff-exhausted {k} attempts with {s.cfg.bo} backoff steps"] else []
-    -- an outcome that is not the last one was retried
+    let origBody := if s.bodyLen = 0 then "x" else s.bodyTok
+    let fb := s.cfg.req.tls ∧ s.cfg.fallback
+    -- an attempt carries the original request: method, URI, headers, and the complete body
+    -- (a request the server stopped reading by script is judged on its head only)
+    let okAttempt : String → Bool := fun a =>
+      match fields a with
+      | [sch, m, p, h, b, fl, _] =>
+        (sch = "a:P" ∨ (sch = "a:S" ∧ s.cfg.req.tls)) ∧ (sch = "a:S" ∨ ¬ s.cfg.req.tls ∨ s.cfg.fallback) ∧
+        m = s.cfg.req.method ∧ p = s.cfg.req.url ∧ h = hdrTok s.cfg.req.headers ∧
+        ((fl = "0" ∧ b = origBody) ∨ fl = "p")
+      | _ => false
+    let pf1 := (seen.zipIdx.filter fun (a, _) => !okAttempt a).map fun (a, i) =>
+      s!"side=impl key=attempt-differs-from-original attempt {i + 1} carried {a.take 140}, the original request is {s.cfg.req.method} {s.cfg.req.url} {hdrTok s.cfg.req.headers} body {origBody.take 40}"
+    let framings := (seen.filterMap fun a => (fields a).getLast?).eraseDups
+    let pf1b := if framings.length > 1 then [s!"side=impl key=attempt-changes-framing attempts used different body framings: {framings}"] else []
+    let pf2 := match seen.getLast? with
+      | some a => if res.startsWith "ok:" ∧ (!okAttempt a ∨ (fields a).getD 5 "" ≠ "0") then
+          ["side=impl key=success-with-incomplete-request Send reported success for an attempt that did not carry the complete original request"] else []
+      | none => if res.startsWith "ok:" then ["side=impl key=success-with-incomplete-request Send reported success although no request reached the server"] else []
+    let maxAtt := if fb then 2 * (s.cfg.bo + 1) else s.cfg.bo + 1
+    let pf3 := if k > maxAtt then [s!"side=impl key=retry-after-backoff-exhausted {k} attempts with {s.cfg.bo} backoff steps"] else []
+    -- outcomes of the requests the server saw, in order (refused connections are never seen)
+    let outsSeen := (s.script.filter (· ≠ .refuse))
+    let outs := (List.range k).map fun i => outsSeen.getD i .net
     let retried := outs.take (k - 1)
     let pf4 := retried.filterMap fun o => match o with
       | .status c =>
@@ -84,24 +160,26 @@ def step (s : St) (kind : String) (args impl : List String) : Option (St × Step
            else some s!"side=impl key=retried-accepted-status accepted status {c} was retried")
         else if !wantsRetry s.cfg o then some s!"side=impl key=retried-non-retryable status {c} was retried"
         else none
-      | .net => none
-    -- a retry was due (retryable outcome, backoff left, body replayable) but not sent
-    let pf5 := match outs.getLast? with
+      | _ => none
+    -- the next two need attempt i ↔ script entry i: no refused connections, no fallback attempts
+    let aligned := ¬ s.script.contains .refuse ∧ ¬ fb ∧ impl ≠ []
+    let canReplay := s.cfg.kind ≠ .plain
+    let pf5 := if !aligned then [] else match outs.getLast? with
       | some o =>
-        if wantsRetry s.cfg o ∧ k - 1 < s.cfg.bo ∧ s.cfg.kind ≠ .plain ∧ impl ≠ [] then
+        if wantsRetry s.cfg o ∧ k - 1 < s.cfg.bo ∧ canReplay then
           [s!"side=impl key=retry-not-sent attempt {k} ended retryable with backoff left and a replayable body, yet no further request was sent"] else []
-      | none => if impl ≠ [] then ["side=impl key=retry-not-sent no request reached the server"] else []
-    -- the result must be that of the last attempt
-    let pf6 := match outs.getLast? with
-      | some o => if impl ≠ [] ∧ res ≠ resultTok (final s.cfg o) then
-          let wantRes := resultTok (final s.cfg o)
-          [s!"side=impl key=result-not-of-last-attempt Send returned {res}, the last attempt ended {wantRes}"] else []
+      | none => ["side=impl key=retry-not-sent no request reached the server"]
+    let pf6 := if !aligned then [] else match outs.getLast? with
+      | some o =>
+        let wantRes := resultTok (final s.cfg o)
+        if res ≠ wantRes then [s!"side=impl key=result-not-of-last-attempt Send returned {res}, the last attempt ended {wantRes}"] else []
       | none => []
     let kindT := match s.cfg.kind with | .none => "none" | .rewindable => "rew" | .plain => "plain"
-    let resT := ((resultTok r).splitOn ":").headD ""
-    let natt := min sent.length 4
-    let pfs := pf1 ++ pf2 ++ pf3 ++ pf4 ++ pf5 ++ pf6
-    some (s, { obs := obs, propfails := pfs, branch := s!"send.{kindT}.{resT}.att{natt}" })
+    let resT := ((obs.headD "").splitOn ":").headD ""
+    let natt := min (obs.length - 1) 4
+    let mode := if fb then "fb" else if s.cfg.req.tls then "tls" else if s.ka then "ka" else "http"
+    let pfs := pf1 ++ pf1b ++ pf2 ++ pf3 ++ pf4 ++ pf5 ++ pf6
+    some (s, { obs := obs, propfails := pfs, branch := s!"send.{mode}.{kindT}.{resT}.att{natt}" })
   | _, _ => none
 
 def machine : Machine := { σ := St, name := "send", init := init, step := step }
